@@ -214,6 +214,36 @@ def refresh_keeps_nothing(ctx):
               "(e.g. a kill preference mark set or removed between two ticks is ignored)" % (rf.text(late[0])[:70] if late else "no clear found"))
 
 
+WIDE_PRODUCT_OK = {
+    ("Oomd::CgroupContext::effective_usage", "memory_scale"): "memory_scale is a small configuration factor (default 1), not a byte count",
+}
+
+
+def no_wide_products(ctx):
+    """Derived statistics multiply byte counts only in floating point: an int64 x int64 product of two byte counts overflows (UB, in
+    practice a negative or tiny result) from a few GiB on."""
+    from ..misc import wide_products
+    P = ctx.prog
+    n_fn, n_ok = 0, 0
+    for f in sorted(P.fns.values(), key=lambda x: (x.file, x.line)):
+        if f.file not in ("oomd/CgroupContext.cpp", "oomd/OomdContext.cpp") or f.kind == "globalinit":
+            continue
+        n_fn += 1
+        for i in wide_products(f):
+            t = f.text(i)
+            aud = [why for (q, frag), why in WIDE_PRODUCT_OK.items() if q == f.pq and frag in t]
+            if aud:
+                n_ok += 1
+                ctx.ok("no-64bit-products:%s" % short(f), "E-TYPE overflow(audited)", f.loc(i), aud[0])
+            else:
+                ctx.violation("no-64bit-products:%s@%d" % (short(f), f.nodes[i].get("line", 0)), "E-TYPE overflow", f.loc(i),
+                              "'%s' multiplies two 64-bit quantities in integer arithmetic: for byte counts of a few GiB the product exceeds 2^63 (signed overflow), "
+                              "the statistic comes out negative or near zero" % t[:80])
+    ctx.counters["statistics_functions_scanned_for_wide_products"] = n_fn
+    ctx.floor("statistics_functions_scanned_for_wide_products", 30, "functions of CgroupContext.cpp / OomdContext.cpp")
+    ctx.ok("no-64bit-products", "E-TYPE overflow", "-", "%d functions scanned, %d audited product(s)" % (n_fn, n_ok))
+
+
 def run(ctx):
     P, cg = ctx.prog, ctx.cg
     # ------------------------------------------------ cached accessors
@@ -258,6 +288,7 @@ def run(ctx):
     ctx.floor("proxy_instances", 5, "instantiations of proxy()")
 
     refresh_keeps_nothing(ctx)
+    no_wide_products(ctx)
     effective_swap_scheme(ctx)
     io_cost_tables(ctx)
     psi_tables(ctx)
